@@ -1,8 +1,10 @@
 import TongoModel.Message
 import TongoProofs.Lemmas.Message
 import TongoProofs.Lemmas.MessageHash
+import TongoProofs.Lemmas.MessageTlb
 import TongoProofs.C01
 import TongoProofs.C02
+import TongoProofs.C04
 /-! Property C16 — message and transaction identity hashes match their source cells.
 Property theorems only. `H` is the hash function (a parameter; SHA-256 in the driver); `Cell.reprHash H` is the
 representation hash of TongoModel/Cell.lean (the model of Cell.Hash, property C02). -/
@@ -122,6 +124,63 @@ theorem norm_ignores_src_fee_init_placement (p1 p2 : ExtInParts) (c1 c2 : Cell) 
   · rw [← f2]
   · exact hd
   · rw [← f1, ← f2]; exact hb
+
+/-- **All three kinds.** For a message of ANY kind (internal, external-in, external-out) built from well-formed parts —
+any addresses, amounts below 2^64 (2^120 for the import fee), absent / inline / referenced state-init, inline /
+referenced body — and encoded into a cell (when it fits), decoding as the library does reports the representation
+hash of that cell and recovers exactly the info, the init and the body value (the same body whether it was inline
+or in a reference). -/
+theorem msg_roundtrip_all_kinds (p : MsgParts) (w : MsgPartsWF p) (c : Cell) (e : encodeMsg p = .ok c)
+    (m : Message) (u : unmarshalMessage H c = .ok m) :
+    c.reprHash H = .ok m.hash ∧ m.msg.info = p.info ∧ bodyCell m.msg = p.bodyValue ∧
+      m.msg.bodyIsRef = (p.bodyForm == .ref) := by
+  have f := msg_fields_from_start H c m u
+  rw [encodeMsg_cell p c e] at f
+  simp only [Cell.ordinary, Cell.bits, Cell.refs] at f
+  rw [decodeMsg_encodeMsgRaw p w] at f
+  injection f with f
+  refine ⟨msg_hash_is_cell_hash H c m u, ?_, ?_, ?_⟩ <;> rw [← f] <;> rfl
+
+/-- **The hand-written layout is the block.tlb layout.** For every message of any kind whose parts lie in the domain
+of the transcribed schema (C04's SPEC `Tlb.Spec.Message`: anycast depth ≤ 30, no extra currencies, empty state-init
+library, ordinary body cell) the bits and references that `message$_ info:CommonMsgInfo init:(Maybe (Either StateInit
+^StateInit)) body:(Either X ^X)` prescribes are exactly those of this file's encoder. -/
+theorem layout_is_block_tlb (g : Nat) (hg : 40 ≤ g) (info : Info) (init : InitTlb) (form : BodyForm) (body : Cell)
+    (hi : InfoWF info) (ht : InfoTlb info) (hinit : init.wf) (hb : body = Cell.mk 0 0 body.bits body.refs) :
+    Tlb.Spec.specChunk Tlb.Spec.senv g Tlb.Spec.Message (msgVal info init form body) =
+      some (encodeMsgRaw ⟨info, init.toForm, form, body⟩) :=
+  spec_message g hg info init form body hi ht hinit hb
+
+/-- **…and the layout of the Go struct definitions.** `desc_tlb_Message` is the descriptor REGENERATED on every run from
+tlb/messages.go (field order, tlb tags, constructor tags); C04's `impl_eq_spec_Message` decides that it matches the
+schema. Hence whenever the model of tlb.Marshal encodes such a message value with that descriptor, the cell it
+produces is the cell of this file's encoder — a changed struct tag, field order or constructor tag in
+tlb/messages.go breaks `impl_eq_spec_Message` and with it this theorem. -/
+theorem layout_matches_go_descriptor (info : Info) (init : InitTlb) (form : BodyForm) (body : Cell)
+    (hi : InfoWF info) (ht : InfoTlb info) (hinit : init.wf) (hb : body = Cell.mk 0 0 body.bits body.refs)
+    (fuel : Nat)
+    (hd : Tlb.inDom TongoGen.TlbTypes.env fuel TongoGen.TlbTypes.desc_tlb_Message (msgVal info init form body) = true)
+    (b' : Tlb.Builder)
+    (he : Tlb.encode TongoGen.TlbTypes.env fuel TongoGen.TlbTypes.desc_tlb_Message (msgVal info init form body)
+      Tlb.Builder.empty = .ok b') :
+    b'.toCell = Cell.mk 0 0 (encodeMsgRaw ⟨info, init.toForm, form, body⟩).1 (encodeMsgRaw ⟨info, init.toForm, form, body⟩).2 := by
+  obtain ⟨g, c, hc, hcell⟩ := Tlb.C04.impl_cell_eq_spec _ _ _ Tlb.C04.impl_eq_spec_Message fuel _ hd b' he
+  have h1 := Tlb.Spec.specChunk_mono (Nat.le_max_left g 40) hc
+  have h2 := spec_message (max g 40) (Nat.le_max_right g 40) info init form body hi ht hinit hb
+  rw [h2] at h1
+  injection h1 with h1
+  rw [hcell, ← h1]
+
+/-- the hypotheses of `layout_matches_go_descriptor` are satisfiable (a test on one literal, decided by the kernel): an
+external-in message to a standard address with a 3-bit body in a reference is in the domain of the regenerated
+descriptor and the encoder model succeeds on it -/
+example :
+    Tlb.inDom TongoGen.TlbTypes.env 60 TongoGen.TlbTypes.desc_tlb_Message
+      (msgVal (.extIn .none (.std none 0 (List.replicate 32 7)) 5) .absent .ref (Cell.mk 0 0 [true, false, true] [])) = true ∧
+    (Tlb.encode TongoGen.TlbTypes.env 60 TongoGen.TlbTypes.desc_tlb_Message
+      (msgVal (.extIn .none (.std none 0 (List.replicate 32 7)) 5) .absent .ref (Cell.mk 0 0 [true, false, true] []))
+      Tlb.Builder.empty).isOk = true := by
+  decide +kernel
 
 /-- The normalised hash is the hash of the canonical re-encoding: the schema-level encoder applied to the canonical
 parts (no source, destination without a standard address's anycast, zero import fee, no init, body in a
